@@ -29,6 +29,9 @@ func checkC10(c *Ctx) {
 	r.NotDecided = append(r.NotDecided, "linearizability over schedules", "FIFO delivery beyond one producer goroutine and one channel per transaction",
 		"data races in code outside the lock/confinement rules (user loggers, PacketConn implementations)")
 	r.Expect("C10-clients", 2)
+	// the v4 hardware-address filter compares msg.ClientHWAddr: the decoder must deliver the first min(hlen,16)
+	// bytes of chaddr, not a shorter prefix (shared with C04-K1/K3)
+	c04Header(c)
 	for _, short := range []string{"nclient4", "nclient6"} {
 		a := resolveClientAnchors(c, short)
 		if len(a.errs) > 0 {
